@@ -35,7 +35,13 @@ import (
 var c10ConnVals = []string{"", "close", "Close", "CLOSE", "keep-alive", "Keep-Alive", "keep-alive, close", "close, TE", "upgrade"}
 
 // handler programs: 0 nothing, 1 ctx.SetConnectionClose(), >=2 ctx.Response.Header.Set("Connection", value)
-var c10HandVals = []string{"", "<SetConnectionClose>", "close", "Close", "keep-alive", "keep-alive, close"}
+// 6.. : handlers after which the server swaps the RequestCtx (the response comes from ctx.timeoutResponse):
+// TimeoutError, TimeoutErrorWithCode, TimeoutErrorWithResponse (plain / carrying Connection: close), and a handler wrapped
+// in TimeoutHandler whose inner handler never finishes before the (1 ns) timeout.
+var c10HandVals = []string{"", "<SetConnectionClose>", "close", "Close", "keep-alive", "keep-alive, close",
+	"<TimeoutError>", "<TimeoutErrorWithCode>", "<TimeoutErrorWithResponse>", "<TimeoutErrorWithResponse+close>", "<TimeoutHandler>"}
+
+const c10FirstTimeoutHandler = 6
 
 type c10Req struct {
 	V int `json:"v"` // 0 = HTTP/1.1, 1 = HTTP/1.0
@@ -102,8 +108,26 @@ func c10Handler(ctx *RequestCtx) {
 	switch {
 	case h == 1:
 		ctx.SetConnectionClose()
-	case h >= 2 && h < len(c10HandVals):
+	case h >= 2 && h < c10FirstTimeoutHandler:
 		ctx.Response.Header.Set("Connection", c10HandVals[h])
+	case h == 6:
+		ctx.TimeoutError("t")
+	case h == 7:
+		ctx.TimeoutErrorWithCode("t", StatusServiceUnavailable)
+	case h == 8 || h == 9:
+		var resp Response
+		resp.SetStatusCode(StatusGatewayTimeout)
+		resp.SetBodyString("t")
+		if h == 9 {
+			resp.SetConnectionClose()
+		}
+		ctx.TimeoutErrorWithResponse(&resp)
+	case h == 10:
+		// the inner handler is released only after the wrapper has returned, so the timeout always wins
+		rel := make(chan struct{})
+		TimeoutHandler(func(*RequestCtx) { <-rel }, 1, "t")(ctx)
+		close(rel)
+		return
 	}
 	ctx.SetBodyString("ok")
 }
@@ -128,8 +152,10 @@ func c10Required(cfg c10Cfg, n int, q c10Req) string {
 		return "max-requests-per-conn"
 	case q.H == 1:
 		return "handler-setconnectionclose"
-	case q.H >= 2 && c10HasToken(c10HandVals[q.H], "close"):
+	case q.H >= 2 && q.H < c10FirstTimeoutHandler && c10HasToken(c10HandVals[q.H], "close"):
 		return "handler-header-close" + c10TokenShape(c10HandVals[q.H], "close")
+	case q.H == 9:
+		return "handler-timeout-response-close"
 	}
 	return ""
 }
@@ -268,6 +294,15 @@ func c10RunServer(r *vrt.R, s *Server, cs c10Case, judgeAll bool) (kept bool) {
 		if tag == "" {
 			tag = "nothing-requires-close"
 		}
+		if q.H >= c10FirstTimeoutHandler {
+			tag += ":timeout-response"
+			if k == n {
+				r.Add("timeout_responses_judged", 1)
+				if reason != "" {
+					r.Add("timeout_responses_judged_must_close", 1)
+				}
+			}
+		}
 		switch {
 		case rs.closeTok && kept:
 			viol("close-header-sent-but-connection-kept-open:"+tag,
@@ -280,7 +315,11 @@ func c10RunServer(r *vrt.R, s *Server, cs c10Case, judgeAll bool) (kept bool) {
 				fmt.Sprintf("response %d must be 'Connection: close' + close (%s) but carries Connection %q and the connection stayed open", k, reason, rs.connVals))
 		}
 		if q.V == 1 && kept && !rs.closeTok && !rs.kaTok {
-			viol("http10-connection-kept-open-without-keep-alive-header",
+			sg := "http10-connection-kept-open-without-keep-alive-header"
+			if q.H >= c10FirstTimeoutHandler {
+				sg += ":timeout-response"
+			}
+			viol(sg,
 				fmt.Sprintf("HTTP/1.0 response %d kept the connection open but carries Connection %q", k, rs.connVals))
 		}
 		if k == n {
@@ -567,7 +606,7 @@ func TestVerif_C10(t *testing.T) {
 	r.Rule(fmt.Sprintf("server: every request history of <=%d requests on one connection over version{1.1,1.0} x Connection%q x handler%q "+
 		"(extended only while the server kept the connection open), x DisableKeepalive{off,on} x MaxRequestsPerConn{0,1,2} x delivery{one chunk per request, pipelined}, "+
 		"through Server.ServeConn on a scripted connection; oracle per response: close token in the Connection header sent (case-insensitive list member) <=> no further Read, "+
-		"every close the statement requires is announced and done, HTTP/1.0 persistent responses carry keep-alive. "+
+		"every close the statement requires is announced and done, HTTP/1.0 persistent responses carry keep-alive (handlers <Timeout...> make the server answer from a swapped RequestCtx). "+
 		"client: every sequence of %d scripted responses over version x Connection values, HostClient.Do sequentially; oracle: no request is written on a connection after a response with a close token. "+
 		"shutdown: real Serve/Shutdown, Shutdown started in the handler of request 1..2 x CloseOnShutdown. "+
 		"non-trivial: histories whose last response the statement requires to close", maxLen, c10ConnVals, c10HandVals, clientLen))
